@@ -672,3 +672,30 @@ def describe(case):
 
 
 from harness.c10.gen import generate, valid, targeted   # noqa: E402,F401
+
+
+def explain(item):
+    """which request of the chain deviates from the store semantics, and in which field"""
+    out = []
+    try:
+        chain, attr_bad = item['impl']
+        if attr_bad:
+            out.append('Set-Cookie attributes differ from the options: %s' % attr_bad)
+        for i, (ob, sp) in enumerate(zip(chain, item.get('spec') or [])):
+            if not sp:
+                continue
+            new, created, start, results, end, fin = sp[0]
+            if ob[0] != 0:
+                out.append('request %d: constructing the session raised (%s); expected a session' % (i, ob[1:]))
+                continue
+            s0, rs, s1, f = ob[1], ob[2], ob[3], ob[4]
+            for label, got, want in (('new', s0[4], new), ('created', s0[1][1:], [created]), ('data at start', s0[0], start),
+                                     ('results', rs, results), ('data at end', s1[0], end),
+                                     ('created at end', s1[1][1:], [created]),
+                                     ('cookie (0 none, 1 set, 2 refused)', f[0], fin)):
+                if got != want:
+                    out.append('request %d: %s is %s, the property demands %s' % (
+                        i, label, json.dumps(got)[:200], json.dumps(want)[:200]))
+    except Exception as e:
+        out.append('explain failed: %r' % (e,))
+    return out
